@@ -132,27 +132,40 @@ pub fn check_amplification(out: &Outcome, obs: &mut Obs) -> Result<Summary, Fail
             .collect();
         arrivals.sort();
         let mut tx = 0u64;
-        // the implementation's own book-keeping (credit that saturates at zero), used only to tell the known
-        // "overshoot is forgotten" finding from any other way of exceeding the limit
-        let mut allowance = 0u64;
-        let mut credited = 0usize;
-        // credit left when the current burst (datagrams sent at one instant) started: the limit is tested per burst
-        let mut burst: (u64, u64) = (u64::MAX, 0);
+        // the implementation's own book-keeping (credit that saturates at zero), replayed in the order in which the server
+        // itself saw its datagrams (record order, not time stamps: a probe sent at the very instant a datagram arrives is
+        // sent before it is credited); used only to tell the known "overshoot is forgotten" finding from any other way of
+        // exceeding the limit. replica[k] = (credit before the k-th datagram to this address, credit when its burst started)
+        let replica: Vec<(u64, u64)> = {
+            let mut v = vec![];
+            let mut allowance = 0u64;
+            let mut burst: (u64, u64) = (u64::MAX, 0);
+            for r in out.recs.iter().filter(|r| r.ep == 0) {
+                match &r.ev {
+                    crate::rec::Ev::RxDatagram { remote, len, .. } if remote == c => allowance += 3 * *len as u64,
+                    crate::rec::Ev::TxDatagram { remote, len, .. } if remote == c => {
+                        if burst.0 != r.t_us {
+                            burst = (r.t_us, allowance);
+                        }
+                        v.push((allowance, burst.1));
+                        allowance = allowance.saturating_sub(*len as u64);
+                    }
+                    _ => {}
+                }
+            }
+            v
+        };
+        let mut k = 0usize;
         for n in out.net.iter().filter(|n| n.src == server && n.dst == *c) {
             if n.t_us >= t_valid {
                 break;
             }
             let rx: u64 = arrivals.iter().take_while(|(t, _)| *t <= n.t_us).map(|(_, b)| *b).sum();
-            while credited < arrivals.len() && arrivals[credited].0 <= n.t_us {
-                allowance += 3 * arrivals[credited].1;
-                credited += 1;
-            }
+            let (allowance, burst_credit) = replica.get(k).copied().unwrap_or((0, 0));
+            k += 1;
             sum.server_datagrams_before_validation += 1;
             if *migrated {
                 sum.server_datagrams_to_unvalidated_migrated += 1;
-            }
-            if burst.0 != n.t_us {
-                burst = (n.t_us, allowance);
             }
             if tx >= 3 * rx {
                 // bytes the server received from the *other* addresses of the same client by now
@@ -170,7 +183,7 @@ pub fn check_amplification(out: &Outcome, obs: &mut Obs) -> Result<Summary, Fail
                     }
                     None => 0,
                 };
-                let key = if allowance > 0 || burst.1 > 0 {
+                let key = if allowance > 0 || burst_credit > 0 {
                     "c11:amplification-limit-exceeded:overshoot-forgotten"
                 } else if rx_other > 0 && tx < 3 * (rx + rx_other) + 1500 {
                     "c11:amplification-limit-exceeded:credit-from-other-address-during-handshake"
@@ -194,7 +207,6 @@ pub fn check_amplification(out: &Outcome, obs: &mut Obs) -> Result<Summary, Fail
                 }
             }
             tx += n.len as u64;
-            allowance = allowance.saturating_sub(n.len as u64);
         }
     }
 
